@@ -45,21 +45,32 @@ def cartesian_product(listoflists):
 
     return res
 
-def LERP(x,points):
+def LERP(x,points,kind="continuous"):
     """
     Linear interpolation between a set of points
     :param x: x to obtain y for
     :param points: List of tuples containing the graphical function's points [(x,y),(x,y) ... ]
+    :param kind: XMILE graphical function type: continuous (clamped), extrapolate (end segments continued), discrete (step-wise)
     :return: y value for x obtained using linear interpolation
     """
     x_vals = np.array([ x[0] for x in points])
     y_vals = np.array([x[1] for x in points])
+    last = len(x_vals)-1
+
+    if kind == "discrete":
+        if x < x_vals[0]:
+            return y_vals[0]
+        return y_vals[max(k for k in range(len(x_vals)) if x_vals[k] <= x)]
+
+    if kind == "extrapolate" and len(x_vals) > 1 and (x < x_vals[0] or x > x_vals[last]):
+        k = 0 if x < x_vals[0] else last - 1
+        return float(y_vals[k] + (y_vals[k+1] - y_vals[k]) * (x - x_vals[k]) / (x_vals[k+1] - x_vals[k]))
 
     if x<= x_vals[0]:
         return y_vals[0]
 
-    if x >= x_vals[len(x_vals)-1]:
-        return y_vals[len(x_vals)-1]
+    if x >= x_vals[last]:
+        return y_vals[last]
 
     f = interp1d(x_vals, y_vals)
     return float(f(x))
@@ -95,7 +106,7 @@ class simulation_model():
     
         # gf
         {% for gf in gfs -%}
-        '{{ gf.name }}{% if "labels" in gf.keys() %}[{{ gf.labels }}]{% endif %}' : lambda t: LERP( {{ gf.expression}}, self.points['{{gf.name}}']),
+        '{{ gf.name }}{% if "labels" in gf.keys() %}[{{ gf.labels }}]{% endif %}' : lambda t: LERP( {{ gf.expression}}, self.points['{{gf.name}}']{% if gf.gf_type and gf.gf_type != "continuous" %}, '{{ gf.gf_type }}'{% endif %}),
         {% endfor %}
     
         #constants
